@@ -1462,7 +1462,7 @@ def obs_equal(a, b, exact=False):
     return all(close(x, y, 1e-9) for x, y in zip(a, b))
 
 
-def run_history(EF, shape, hops, only=None):
+def run_history(EF, shape, hops, only=None, trace=None):
     """the calls on ONE object; returns (failures, stats).  failures: list of dict(key, index, what, observed, required);
     `only` restricts the fresh-object comparison to one failure key (shrinking)."""
     se = EF.StrainEnergy(SHAPES[shape])
@@ -1484,6 +1484,12 @@ def run_history(EF, shape, hops, only=None):
                 continue
             got = hist_call(EF, se, h)
             stats['obs'] += 1
+            if trace is not None and h[0] != 'eqAR':
+                # (model: compute = strainEnergyBohm for an ellipsoid; of the five variants the third is strainEnergyBohm)
+                rads = np.atleast_2d(np.asarray(h[1], dtype=float))
+                vals = [got[2]] if h[0] == 'variants' else list(got)
+                for rd, v in zip(rads, vals):
+                    trace.append(('C', rd, float(v), ref.desc, ref.quad))
             mk = (ref.version(), h[0], np.asarray(h[1], dtype=float).tobytes()) if h[0] != 'eqAR' else None
             if mk is not None and mk in memo:
                 want = memo[mk]
@@ -1511,6 +1517,15 @@ def run_history(EF, shape, hops, only=None):
         flag = hist_call(EF, se, h)
         if flag != 'F':
             ref.record(h)
+        if trace is not None:
+            if h[0] == 'set':
+                trace.append(('S', h[1], flag))
+            elif h[0] == 'prop':
+                trace.append(('S', ({('matrix', 2): 2, ('matrix', 4): 3, ('prec', 2): 6, ('prec', 4): 7}[(h[1], np.ndim(h[2]))], np.asarray(h[2])), flag))
+            elif h[0] == 'shape':
+                trace.append(('S', (0, H_SHAPE_CODE[h[1].upper()]), flag))
+            elif h[0] == 'quad':
+                trace.append(('Q', h))
         dreal = DESC_CODE[type(se.description).__name__]
         if dreal != ref.desc:
             fails.append(dict(key='history:description', index=i, what='after %s the description is %s, the calls so far define %s' % (hop_kind(h), SHAPES[dreal], SHAPES[ref.desc]),
@@ -1637,15 +1652,72 @@ def gen_history(r, EF, nmax):
     return shape, hops
 
 
+def quad_nodes(EF, h):
+    """the node table an ellipsoidal description holds after the quadrature call h (None = a new description)"""
+    d = EF.EllipsoidalEnergyDescription()
+    if h is not None:
+        d.setLebedevIntegration(h[2]) if h[1] == 'lebedev' else d.setIntegrationIntervals(h[2], h[3], h[4])
+    return (np.asarray(d.midPhiGrid, dtype=float).ravel(), np.asarray(d.midThetaGrid, dtype=float).ravel(), np.asarray(d.midWeights, dtype=float).ravel(), float(d.dA))
+
+
 def part_history(ctx, res, EF, r, n=None):
     shrunk = set()
     lines, checks = [], []
+    ncorr = ctx.n(60, 400)
+    budget = [ctx.n(6000, 120000)]           # quadrature nodes the model may evaluate in this run (driver time)
+
+    def hist_line(trace, shape, case):
+        """the same history through the model (KawinV.Elastic.hrun): setter flags, final description, every compute result"""
+        qkey = lambda q: None if q is None else tuple(q[1:])
+        tables = {None: 0}; order = [None]
+        cost = 0
+        for t in trace:
+            q = t[1] if t[0] == 'Q' else t[4] if (t[0] == 'C' and t[3] == 3) else 'skip'
+            if q == 'skip':
+                continue
+            if qkey(q) not in tables:
+                tables[qkey(q)] = len(order); order.append(q)
+        nodes = [None] * len(order)
+        need = {tables[qkey(t[4])] for t in trace if t[0] == 'C' and t[3] == 3}
+        for i, q in enumerate(order):
+            nodes[i] = quad_nodes(EF, q) if i in need else (np.zeros(0), np.zeros(0), np.zeros(0), 0.0)
+        cost = sum(len(nodes[tables[qkey(t[4])]][0]) for t in trace if t[0] == 'C' and t[3] == 3)
+        if cost > budget[0] or not any(t[0] == 'C' for t in trace):
+            res.count('history-model-skipped-for-cost'); return
+        budget[0] -= cost
+        toks, want, flags = [], [], ''
+        for t in trace:
+            if t[0] == 'S':
+                toks.append('S ' + enc_op(t[1])); flags += t[2]
+            elif t[0] == 'Q':
+                toks.append('Q %d' % tables[qkey(t[1])])
+            else:
+                toks.append('C ' + enc_list(t[1])); want.append((t[2], t[3]))
+        res.count('history-model-lines'); res.count('history-model-compute', len(want)); res.count('history-model-quadrature-nodes', cost)
+
+        def chk(t, want=want, flags=flags, case=case):
+            mf = t.tok()[1:]
+            if mf != flags:
+                res.disagree('history: setter raised / returned', case, flags, mf); return
+            t.nat()
+            g = t.flts()
+            if len(g) != len(want):
+                res.disagree('history: number of compute results', case, len(want), len(g)); return
+            for j, ((w, dsc), m) in enumerate(zip(want, g)):
+                if math.isfinite(w) and not close(m, w, 1e-7 if dsc == 3 else 1e-9):
+                    res.disagree('history: compute call %d (%s)' % (j, SHAPES[dsc]), case, w, m); return
+        lines.append('el.hist %d %d %s %d %s' % (shape, len(order), ' '.join('%s %s %s %s' % (enc_list(nd[0]), enc_list(nd[1]), enc_list(nd[2]), f2b(nd[3])) for nd in nodes),
+                                                  len(toks), ' '.join(toks)))
+        checks.append(('history', case, chk))
 
     def _case_history(k):
         shape, hops = gen_history(r, EF, ctx.n(22, 60))
         _case_history.info = dict(object=SHAPES[shape], calls=[hop_kind(h) for h in hops])
-        fails, st = run_history(EF, shape, hops)
+        trace = [] if k < ncorr else None
+        fails, st = run_history(EF, shape, hops, trace=trace)
         res.case(('history', k, shape, len(hops)), st['obs'] >= 2); res.traces += 1
+        if trace and not any(f['key'] == 'history:description' for f in fails):
+            hist_line(trace, shape, dict(object=SHAPES[shape], calls=[hop_kind(h) for h in hops], case=k))
         res.count('history-calls', len(hops)); res.count('history-observations', st['obs']); res.count('history-fresh-objects', st['fresh'])
         res.count('history-compute-undefined-without-stiffness', st['undefined']); res.count('history-initial-' + SHAPES[shape])
         for h in hops:
@@ -1753,7 +1825,8 @@ def part_forms(ctx, res, EF, r, n=None):
             stored, fs, en = build(setter)
             tol = 1e-9 if name.startswith('moduli') else 1e-14
             sidekey = 'input-form:%s:%s' % (side, name)
-            if stored.shape != (3, 3, 3, 3) or not arr_close(stored, c4, tol):
+            stored_ok = stored.shape == (3, 3, 3, 3) and arr_close(stored, c4, tol)
+            if not stored_ok:
                 res.violate(sidekey + ':stored-tensor', 'the %s stiffness supplied as %s is not the tensor the object holds afterwards (unrotated_c%s_4th)' % (side, name, 'Matrix' if side == 'matrix' else 'Prec'),
                             dict(case, form=name), np.asarray(stored).ravel()[:9].tolist(), c4.ravel()[:9].tolist())
             if base is None:
@@ -1761,7 +1834,7 @@ def part_forms(ctx, res, EF, r, n=None):
             diff = [f for f in FIELDS if not arr_close(fs[f], base[1][f], 1e-7 if (f == 'strain' and tol > 1e-12) else max(tol, 1e-12))]
             if fs['desc'] != base[1]['desc']:
                 diff.append('description')
-            if diff:
+            if diff and stored_ok:          # (with a wrong stored tensor the parameters differ as a consequence)
                 res.violate(sidekey + '-vs-6x6:parameters', 'the same %s stiffness supplied as %s and as 6x6 gives different %s' % (side, name, ', '.join(diff)), dict(case, form=name),
                             {f: (np.asarray(fs[f]).ravel()[:6].tolist() if f != 'description' else fs['desc']) for f in diff[:2]},
                             {f: (np.asarray(base[1][f]).ravel()[:6].tolist() if f != 'description' else base[1]['desc']) for f in diff[:2]})
@@ -1837,6 +1910,9 @@ def corr(ctx, oracle_only=False, scale=1):
         l, c = part()
         lines += l; checks += c
     part_order_oracle(ctx, res, EF, r)
+    part_forms(ctx, res, EF, r)
+    l, c = part_history(ctx, res, EF, r)
+    lines += l; checks += c
     if ctx.driver_ok and not oracle_only:
         out = vlib.run_driver(PROP, lines)
         for line, ans, (what, case, fn) in zip(lines, out, checks):
@@ -1865,6 +1941,8 @@ def search(ctx, broken):
     part_formulas(big, res, EF, r)
     part_energy(big, res, EF, r, bad)
     part_order_oracle(big, res, EF, r)
+    part_forms(big, res, EF, r)
+    part_history(big, res, EF, r)
     part_sequences(big, res, EF, r)
     part_objects(big, res, EF, r)
     return res
@@ -1873,6 +1951,17 @@ def search(ctx, broken):
 def replay(ctx, entry):
     """re-evaluates the oracle with the seed / tier of the recorded run and reports whether the recorded key fails again"""
     key = entry['violation']['key'] if 'violation' in entry else None
+    case = entry.get('violation', {}).get('case') or {}
+    if isinstance(case, dict) and 'replay_ops' in case:
+        # a (shrunk) history of one object: run exactly these calls again
+        EF, LN = load()
+        fast_points(EF, LN)
+        hops = [hop_from_json(x) for x in case['replay_ops']]
+        fails, _ = run_history(EF, int(case['replay_shape']), hops)
+        hits = [f for f in fails if f['key'] == key]
+        for f in hits[:3]:
+            print('  ', f['key'], f['what'], f['observed'], f['required'])
+        return not hits
     c2 = vlib.Ctx(PROP, entry.get('tier', 'quick'), entry.get('seed', 0))
     c2.driver_ok = False
     r = corr(c2, oracle_only=True)
